@@ -86,8 +86,10 @@ Record pylib := {
   l_listing : fs -> path -> str -> res gbody;
   (* p.mkdir(parents=True, exist_ok=True) *)
   l_mkdir_parents : fs -> path -> res unit * fs;
-  (* with open(p, "xb") as fh: fh.write(data) *)
-  l_write_new : fs -> path -> str -> res unit * fs;
+  (* open(p, "xb"): exclusive creation of an empty file *)
+  l_open_new : fs -> path -> res unit * fs;
+  (* fh.write(data) for the file opened at p *)
+  l_write : fs -> path -> str -> res unit * fs;
   (* os.replace(a, b) *)
   l_replace : fs -> path -> path -> res unit * fs;
   (* p.unlink() *)
@@ -164,16 +166,23 @@ Definition m_mkdir_parents (f : fs) (p : path) : res unit * fs :=
        | Some f1 => (Ok tt, f1)
        | None => (Err (lit "FileExistsError") [], f)
        end.
-(* exclusive creation, then the write, which the storage fault interrupts: the file exists (partly written) *)
-Definition m_write_new (flt : fault) (f : fs) (p : path) (data : str) : res unit * fs :=
+(* exclusive creation: nothing is created when it fails *)
+Definition m_open_new (f : fs) (p : path) : res unit * fs :=
   if name_too_long p then (toolong, f)
   else match lstat f p with
        | Some _ => (Err (lit "FileExistsError") [], f)
-       | None => match flt with
-                 | Some k => (Err e_os (lit "No space left on device"), f ++ [(p, File (take (N.to_nat k) data))])
-                 | None => (Ok tt, f ++ [(p, File data)])
-                 end
+       | None => (Ok tt, f ++ [(p, File [])])
        end.
+(* the write, which the storage fault interrupts after k bytes: the file stays, partly written *)
+Definition m_write (flt : fault) (f : fs) (p : path) (data : str) : res unit * fs :=
+  match lstat f p with
+  | Some (File _) =>
+      match flt with
+      | Some k => (Err e_os (lit "No space left on device"), set_node f p (File (take (N.to_nat k) data)))
+      | None => (Ok tt, set_node f p (File data))
+      end
+  | _ => (Err e_os (lit "Bad file descriptor"), f)
+  end.
 Definition m_replace (f : fs) (a b : path) : res unit * fs :=
   match lstat f a with
   | None => (Err (lit "FileNotFoundError") [], f)
@@ -200,7 +209,8 @@ Definition model_lib (flt : fault) (tok : str) : pylib := {|
   l_read_text := m_read_text;
   l_listing := m_listing;
   l_mkdir_parents := m_mkdir_parents;
-  l_write_new := m_write_new flt;
+  l_open_new := m_open_new;
+  l_write := m_write flt;
   l_replace := m_replace;
   l_unlink := m_unlink;
   l_token_hex := fun _ => tok
@@ -265,3 +275,108 @@ Definition tmp_ok (f : fs) (t : path) (tok : str) : Prop :=
   name_too_long (tmp_of t tok) = false /\ lstat f (tmp_of t tok) = None.
 Definition upload_out (x : res gresp * fs) : uout * fs := (uout_of (fst x), snd x).
 Definition model_out (x : uout * fs) : uout * fs := (forget_meta (fst x), snd x).
+
+(* ------------------------------------------------------------------ 7. the models with the proposed corrections *)
+(* Model.Static.try_indices / handle / handle_upload with the changes that make the ties unconditional (reported to
+   the coordinator as a diff; Model/Static.v itself is unchanged).  Differences are marked (+). *)
+Fixpoint try_indices_fixed (c : scfg) (f : fs) (d : path) (idx : list str) : option sout :=
+  match idx with
+  | [] => None
+  | i :: rest =>
+      (* (+) `d / i` as pathlib joins it: an absolute name replaces d, slashes separate components;
+         (+) an embedded NUL makes resolve() raise ValueError: the name is skipped *)
+      let u := pjoin d i in   (* = if prefixb [ch_slash] i then ([], comps i) else (d, comps i) *)
+      if existsb (mem 0%N) (snd u) then try_indices_fixed c f d rest else
+      match resolve_fully f (fst u) (snd u) with
+      | FNone => try_indices_fixed c f d rest
+      | FFuel => Some OOom
+      | FPath ip =>
+          if path_prefixb (s_root c) ip then
+            (* (+) is_file() does not swallow ENAMETOOLONG: the exception leaves handle() *)
+            if name_too_long ip then Some (ORaise (lit "oserror")) else
+            match lstat f ip with
+            | Some (File _) => Some (serve_file c f ip)
+            | _ => try_indices_fixed c f d rest
+            end
+          else try_indices_fixed c f d rest
+      end
+  end.
+
+Definition handle_fixed (c : scfg) (f : fs) (url_path : str) : sout :=
+  match unquote url_path with
+  | OutOfModel | Err _ _ => OOom
+  | Ok up =>
+    match canon_strict (comps up) [] with
+    | None => OStatus 51 (lit "Not found")
+    | Some segs =>
+    if existsb (mem 0%N) segs then OStatus 51 (lit "Not found") else
+    match resolve_fully f (s_root c) segs with
+    | FNone => OStatus 51 (lit "Not found")
+    | FFuel => OOom
+    | FPath fp =>
+        if negb (path_prefixb (s_root c) fp) then OStatus 51 (lit "Not found")
+        else if name_too_long fp then ORaise (lit "oserror")
+        else match lstat f fp with
+             | Some Dir =>
+                 match try_indices_fixed c f fp (s_indices c) with
+                 | Some o => o
+                 | None => if s_listing c then listing f fp else OStatus 51 (lit "Not found")
+                 end
+             | _ => serve_file c f fp
+             end
+    end
+    end
+  end.
+
+(* (+) tok: the random part of the temporary file's name *)
+Definition handle_upload_fixed (c : ucfg) (f : fs) (r : ureq) (flt : fault) (tok : str) : uout * fs :=
+  if negb (token_ok c (q_token r)) then (UResp 60 (lit "Valid authentication token required"), f)
+  else if (u_max c <? q_size r)%N then (UResp 50 (lit "Upload exceeds maximum size"), f)
+  else if match u_types c with Some (t :: ts) => negb (existsb (eqb (q_mime r)) (t :: ts)) | _ => false end
+       then (UResp 59 (lit "MIME type not allowed"), f)
+  else if (q_size r =? 0)%N then
+    if negb (u_delete c) then (UResp 50 (lit "Delete operations are disabled"), f)
+    else match resolve_target c f (q_path r) with
+         | OutOfModel => (UOom, f)
+         | Err k _ => (URaise k, f)
+         | Ok None => (UResp 59 (lit "Invalid path"), f)
+         | Ok (Some t) =>
+             if name_too_long t then (URaise (lit "oserror"), f) else
+             match lstat f t with
+             | None => (UResp 51 (lit "Resource not found"), f)
+             | Some Dir => (UResp 40 (lit "Delete failed"), f)
+             | Some _ => (UResp 20 (lit "text/gemini"), remove_node f t)
+             end
+         end
+  else
+    match resolve_target c f (q_path r) with
+    | OutOfModel => (UOom, f)
+    | Err k _ => (URaise k, f)
+    | Ok None => (UResp 59 (lit "Invalid path"), f)
+    | Ok (Some t) =>
+        (* (+) only the PARENT's components stop mkdir() *)
+        if name_too_long (removelast t) then (UResp 40 (lit "Upload failed"), f) else
+        match mkdirs (S (length t)) f [] (removelast t) with
+        | None => (UResp 40 (lit "Upload failed"), f)
+        | Some f1 =>
+            match t with
+            | [] => (UResp 40 (lit "Upload failed"), f1)
+            | _ =>
+                (* (+) the temporary name must be usable (this covers an over-long last component of t: the
+                   directories exist by now) and free (open(.., "xb")); nothing but the directories is left behind *)
+                if name_too_long (tmp_of t tok) then (UResp 40 (lit "Upload failed"), f1) else
+                match lstat f1 (tmp_of t tok) with
+                | Some _ => (UResp 40 (lit "Upload failed"), f1)
+                | None =>
+                    match flt with
+                    | Some _ => (UResp 40 (lit "Upload failed"), f1)
+                    | None =>
+                        match lstat f1 t with
+                        | Some Dir => (UResp 40 (lit "Upload failed"), f1)
+                        | _ => (UResp 20 (lit "text/gemini"), set_node f1 t (File (q_content r)))
+                        end
+                    end
+                end
+            end
+        end
+    end.
